@@ -298,7 +298,9 @@ func HashObject(r io.Reader) (string, error) {
 }
 
 func Log(args ...string) (*subprocess.BufferedCmd, error) {
-	logArgs := append([]string{"log"}, args...)
+	// diff.relative would restrict (and re-root) the paths of any patch output
+	// to the current directory; callers parse paths relative to the top.
+	logArgs := append([]string{"-c", "diff.relative=false", "log"}, args...)
 	return gitNoLFSBuffered(logArgs...)
 }
 
